@@ -296,11 +296,6 @@ class BPlusTreeMap:
         if not child.is_underfull():
             return
 
-        # Handle empty children by merging them (they can't redistribute)
-        if len(child) == 0:
-            self._merge_with_sibling(parent, child_index)
-            return
-
         # Try to redistribute from siblings
         redistributed = False
 
